@@ -69,6 +69,7 @@ fn nt_c07(s: &CaseStats) -> bool { s.puts_on_used_key >= 1 }
 fn nt_c08(s: &CaseStats) -> bool { s.upsert_shapes >= 2 && s.repeated_upserts >= 1 }
 fn nt_c09(s: &CaseStats) -> bool { s.reads_near_deadline_before >= 1 && s.reads_near_deadline_after >= 1 && s.ttl_changes >= 1 }
 fn nt_c10(s: &CaseStats) -> bool { s.swept_keys >= 1 && s.sweeps_with_survivor >= 1 && s.reput_of_ttl_key >= 1 }
+fn nt_c11(s: &CaseStats) -> bool { s.stall_windows >= 1 && s.same_key_bursts >= 1 }
 fn nt_c16(s: &CaseStats) -> bool { ((s.all_hit || s.all_miss) && s.reads > 0 || s.reads == 0 || true) && (s.weight_decreases + s.evictions + s.swept_keys > 0) }
 fn nt_c17(s: &CaseStats) -> bool { s.boundary_args >= 1 && s.ops_after_boundary >= 5 }
 fn nt_probe(_s: &CaseStats) -> bool { true }
@@ -127,6 +128,12 @@ pub fn profile(property: &str) -> GenParams {
             params.limits = vec![200, 1000, 4000];
             params.mix = [30, 25, 10, 8, 1, 3, 25, 8, 5, 3];
         }
+        "C11" => {
+            params.limits = vec![1000, 4000];
+            params.max_key = 5;
+            params.cmd_bufs = vec![1, 2, 3, 8];
+            params.mix = [30, 12, 25, 10, 1, 2, 4, 1, 45, 1];
+        }
         "C16" => {
             params.limits = vec![100, 1000, 4000];
             params.mix = [30, 20, 10, 25, 3, 6, 10, 2, 6, 3];
@@ -153,6 +160,7 @@ const RULE_C07: &str = "generated histories of all four put variants on keys in 
 const RULE_C08: &str = "generated histories dominated by put_or_update of all builder-accepted shapes; effects are checked when the call returns and again after the acknowledgement; non-trivial = >= 2 distinct (request shape, key state) pairs and a repeated upsert on one key";
 const RULE_C09: &str = "generated histories without memory pressure, TTL 0 .. largest representable, clock moved to 1 ns before / on / after live deadlines; sweeper tick 500 us or 1 h (off); non-trivial = a read within 1 ns before a deadline AND one within 1 ns after AND a TTL change";
 const RULE_C10: &str = "generated histories of TTL puts/upserts/deletes/evictions/re-puts with clock advances (one complete sweep awaited after each) and full shard rotations; non-trivial = a sweep removed a key while another TTL key survived AND a previously TTL'd key was put again";
+const RULE_C11: &str = "generated histories dominated by stall-window bursts (worker parked after dequeuing the first command, up to queue-size further commands queued, then released): execution order from the trace must equal submission order, every queued command executed exactly once, the last acknowledgement completing implies all earlier ones complete, and the final state must equal the FIFO application of the burst (e.g. put then delete of one key leaves it absent); non-trivial = a burst with >= 2 queued writes on one key";
 const RULE_C16: &str = "generated histories; all ten counters and the hit ratio compared with the model after every quiescent op; non-trivial = the history contains a weight decrease, an eviction or a sweep";
 const RULE_C17: &str = "generated histories and configurations at arithmetic boundaries (weights 1,2,24,25,L-1,L,L+1,i64::MAX-k; TTL 0,1ns,..,largest representable; counters 1..65536; queue 1); every call under catch_unwind, panic hook on all threads, liveness probe of worker/consumer/sweeper at the end; non-trivial = a boundary argument followed by >= 5 more ops";
 
@@ -178,6 +186,7 @@ pub fn seq_campaigns(property: &str) -> Vec<SeqCampaign> {
         ],
         "C09" => vec![main("seq-main", 4000, 80_000, nt_c09, RULE_C09)],
         "C10" => vec![main("seq-main", 1500, 30_000, nt_c10, RULE_C10)],
+        "C11" => vec![main("seq-bursts", 3000, 50_000, nt_c11, RULE_C11)],
         "C16" => vec![main("seq-main", 3000, 60_000, nt_c16, RULE_C16)],
         "C17" => vec![
             main("seq-main", 4000, 80_000, nt_c17, RULE_C17),
